@@ -134,6 +134,10 @@ def body(ctx, conv, shape, bounds, nan_cells=None, mesh_opts=None, history=False
     N = P.ncells
     present = [n for n in range(N) if polygons[n] is not None]
     ctx.note('config', dict(conv=conv, shape=str(shape), present=present))
+    if not ctx.symbolic:
+        # (replay, concrete coordinates) the independent reference geometry as well
+        from harness import geomref
+        geomref.check(ctx, ds, cv, kind=conv)
     # what is exported is compared with the library's polygons below; those are first compared with the cells the
     # dataset describes (reference corners and native indexes written from the convention documents)
     for n in present:
@@ -229,6 +233,9 @@ def body_large(ctx, conv):
         for (j, i) in ((0, 0), (0, 2), (1, 1), (1, 3)):
             lonb[j, i] = numpy.nan
             latb[j, i] = numpy.nan
+        # ... and, after those holes, a cell whose corners are listed crosswise (self-intersecting: dropped with a warning)
+        lonb[2, 1] = lonb[2, 1][[0, 2, 1, 3]]
+        latb[2, 1] = latb[2, 1][[0, 2, 1, 3]]
         ds = builders.cf2d(nj, ni, lat=lat, lon=lon, lat_bounds=latb, lon_bounds=lonb)
     elif conv == 'cf1d-0-360':
         # longitudes on a 0..360 axis, crossing the antimeridian: coordinates are exported as they are
@@ -366,6 +373,8 @@ def cases(tier):
             yield Case(f'ugrid:{mesh}:{tag}', body, dict(conv='ugrid', shape=mesh, bounds='none', mesh_opts=mo), patches=_patches(), max_paths=100)
 
 
+    # a square connectivity table (four quads) stored (nodes per face, faces)
+    yield Case('ugrid:qqqq:transposed', body, dict(conv='ugrid', shape='qqqq', bounds='none', mesh_opts=dict(transposed=True, fill='none')), patches=_patches(), max_paths=100)
     for mesh, mo in (('fan', dict(start_index=1, fill='none', supply=('edge_node',))), ('tqp', dict(start_index=1, fill='attr', fill_value=0))):
         tag = '+'.join(f'{k}={v}' for k, v in mo.items())
         yield Case(f'ugrid:{mesh}:{tag}:second-dataset-object', body, dict(conv='ugrid', shape=mesh, bounds='none', mesh_opts=mo, twin=True),
